@@ -297,6 +297,25 @@ fn has_nested_in(log: &[Event], k: u64) -> bool {
 }
 
 /// Check one halted run against the dry run. `k` = instruction in flight when the flag was raised.
+/// instruction k is a condition evaluator (if / elseif / while / not) with nested invocations: the only place where a
+/// halt request may end the instruction in flight early (a function called as the condition is cut where it would go
+/// round again); script-implemented commands always run to their end
+fn condition_call_in(log: &[Event], k: u64) -> bool {
+    let mut starts = 0u64;
+    let mut inside = false;
+    for e in log {
+        if let Event::Start { depth, handler, cmd, .. } = e {
+            if *depth == 0 && !*handler {
+                inside = starts == k && (cmd == "std::flowcontrol::If" || cmd == "std::flowcontrol::ElseIf" || cmd == "std::flowcontrol::While" || cmd == "std::Not");
+                starts += 1;
+            } else if inside && *depth >= 1 {
+                return true;
+            }
+        }
+    }
+    false
+}
+
 /// `cut_short_ok`: instruction k runs a nested flow (a script-implemented command, a function called as its
 /// condition) and the flag went up before or inside it: that flow may itself stop at the flag, so the instruction in
 /// flight may end early with another answer and only part of its effects. Everything before it is compared exactly,
@@ -451,7 +470,7 @@ fn mode_a(program: &Program, env: &WorkerEnv, only: &Option<(u64, Pos)>) -> (Ver
         for p in pv {
             *probes.entry(p).or_insert(0) += 1;
         }
-        let cut_short_ok = !matches!(pos, Pos::After | Pos::Handler) && has_nested_in(&dry.log, k);
+        let cut_short_ok = !matches!(pos, Pos::After | Pos::Handler) && condition_call_in(&dry.log, k);
         if let Some((class, detail)) = check_prefix(&dry, &dry_sigs, &halted, k, &format!("halt at #{} {:?}", k, pos), cut_short_ok) {
             let seq = combined.len() as u64;
             combined.push(Event::Note { seq, text: format!("--- halted run (k={}, {:?}) ---", k, pos) });
@@ -767,7 +786,7 @@ fn mode_b(program: &Program, env: &WorkerEnv, sched: &str, sched_seed: u64, yiel
             } else {
                 *probes.entry("halt-at-or-after-last-instruction".to_string()).or_insert(0) += 1;
             }
-            match check_prefix(&dry, &dry_sigs, &halted, k, &format!("thread halt (seq {}) during instruction #{}", halt_seq, k), has_nested_in(&dry.log, k)) {
+            match check_prefix(&dry, &dry_sigs, &halted, k, &format!("thread halt (seq {}) during instruction #{}", halt_seq, k), condition_call_in(&dry.log, k)) {
                 Some((class, detail)) => Verdict::Fail { class, detail },
                 None => Verdict::Pass,
             }
